@@ -7,6 +7,7 @@ Driver glue for C45.
   `C45 unjelly <policy> <registry> <sexp>`      → `<outcome> ev=<events> res=<descriptors> q=<0|1>`
 
 policy:   `-` or `;`-joined ops  `B` | `T:x<hex>,x<hex>…` | `M:x<hex>,…` | `I:<clsid>,…`   (applied to `SecurityOptions()` in order)
+          argument forms: `Ts:` / `Ms:` the names passed as str, `Mo:<modid>,…` module objects, `Tc:<clsid>,…` class objects to allowTypes
 registry: `-` or `;`-joined      `c:<hextag>:<clsid>:<0|1>` | `f:<hextag>:<clsid>`
 sexp:     `,`-joined tokens      `(` `)` `b:<hex>` `s:<hex utf-8>` `i:<int>` `f:<text>`   (hex may be empty)
 outcome:  `ok` or `!raised <Class>`
@@ -31,7 +32,8 @@ def modules : List (String × ObjId) :=
 def kinds : List (ObjId × Kind) :=
   [("c45safe", .module), ("c45safe.sub", .module), ("c45evil", .module), ("os", .module),
    ("posixpath", .module), ("subprocess", .module), ("builtins", .module),
-   ("c45safe.A", .cls true), ("c45safe.B", .cls true), ("c45safe.S", .cls true),
+   ("c45safe.A", .cls true), ("c45safe.B", .cls true), ("c45safe.ASub", .cls true), ("c45safe.J", .cls true),
+   ("c45safe.S", .cls true),
    ("c45safe.Hidden", .cls true), ("c45safe.Meta", .cls false), ("c45safe.RC", .cls true),
    ("c45safe.RP", .cls true), ("c45safe.A.Nested", .cls true),
    ("c45safe.sub.C", .cls true), ("c45evil.E", .cls true), ("subprocess.Popen", .cls true),
@@ -42,6 +44,10 @@ def kinds : List (ObjId × Kind) :=
 
 def attrs : List ((ObjId × String) × ObjId) :=
   [(("c45safe", "A"), "c45safe.A"), (("c45safe", "B"), "c45safe.B"), (("c45safe", "S"), "c45safe.S"),
+   (("c45safe", "ASub"), "c45safe.ASub"), (("c45safe", "J"), "c45safe.J"),
+   -- `ASub(A)` defines nothing itself: its attributes are inherited, its `__dict__` has none of them
+   (("c45safe.ASub", "meth"), "c45safe.A.meth"), (("c45safe.ASub", "Nested"), "c45safe.A.Nested"),
+   (("c45safe.ASub", "attrval"), "c45safe.A.attrval"),
    (("c45safe", "Hidden"), "c45safe.Hidden"), (("c45safe", "Meta"), "c45safe.Meta"),
    (("c45safe", "RC"), "c45safe.RC"), (("c45safe", "RP"), "c45safe.RP"),
    (("c45safe", "func"), "c45safe.func"), (("c45safe", "system"), "posix.system"),
@@ -77,7 +83,7 @@ def world : World where
 
 /-- probe names the harness also probes on the real objects -/
 def probeAttrs : List String :=
-  ["A", "B", "S", "Hidden", "Meta", "RC", "RP", "func", "system", "Popen", "os", "const", "lst", "sub",
+  ["A", "B", "ASub", "J", "S", "Hidden", "Meta", "RC", "RP", "func", "system", "Popen", "os", "const", "lst", "sub",
    "C", "g", "E", "pwn", "path", "getcwd", "join", "call", "eval", "exec", "meth", "Nested", "attrval", "nosuch"]
 def probeImports : List String :=
   ["c45safe", "c45safe.sub", "c45evil", "os", "os.path", "subprocess", "builtins",
@@ -137,8 +143,20 @@ def decHexList (s : String) : Option (List Bytes) :=
 def decPolicyOp (p : Policy) (op : String) : Option Policy :=
   if op = "B" then some p.allowBasicTypes
   else match op.splitOn ":" with
-    | ["T", l] => (decHexList l).map p.allowTypes
-    | ["M", l] => (decHexList l).map p.allowModules
+    | ["T", l] => (decHexList l).map fun bs => p.allowTypeArgs (bs.map .bytes)
+    | ["Ts", l] => do      -- the names passed as str
+      let bs ← decHexList l
+      let ss ← bs.mapM fun b => String.fromUTF8? ⟨b.toArray⟩
+      pure (p.allowTypeArgs (ss.map .str))
+    | ["Tc", l] => some (p.allowTypeArgs ((if l = "" then [] else l.splitOn ",").map .cls))
+    | ["M", l] => (decHexList l).map fun bs => p.allowModuleArgs (bs.map .bytes)
+    | ["Ms", l] => do
+      let bs ← decHexList l
+      let ss ← bs.mapM fun b => String.fromUTF8? ⟨b.toArray⟩
+      pure (p.allowModuleArgs (ss.map .str))
+    | ["Mo", l] =>          -- module objects, by object id; a module's id is its `__name__`
+      let ids := if l = "" then [] else l.splitOn ","
+      if ids.all fun o => world.kind o == .module then some (p.allowModuleArgs (ids.map .obj)) else none
     | ["I", l] => some (p.allowInstancesOf world (if l = "" then [] else l.splitOn ","))
     | _ => none
 
@@ -258,7 +276,7 @@ def showOut (r : Except Err Val × St) : String :=
 namespace RT
 open Twisted.Spread.JellyHeap
 
-def rtClasses : List ObjId := ["c45safe.A", "c45safe.B", "c45safe.S"]
+def rtClasses : List ObjId := ["c45safe.A", "c45safe.B", "c45safe.S", "c45safe.ASub", "c45safe.J"]
 
 def env : Twisted.Spread.JellyHeap.Env where
   qual c := Twisted.Spread.Jelly.utf8 (world.qual c)
